@@ -186,6 +186,14 @@ def explore(ctx):
                "#(1 . 2)", "'#(1 . 2)", "'(1 . 2 3)", "'(. 1)", "'( . )", "(1 . 2)", "#u8(1 2)", "`(a ,b)", ",a", "#\\", "\"\\q\"",
                "\"abc", "|abc", "(car (cdr (list 1)))", "(vector-set! (vector 1 2) -1 0)", "(vector-ref (vector 1 2) -1)",
                "(list-tail '(1 2) -1)", "(make-list -1 0)", "(list-ref '(1 2) -1)",
+               # variables of one ellipsis sub-template with different numbers of matches
+               "(define-syntax zip (syntax-rules () ((zip (a ...) (b ...)) '((a b) ...)))) (zip (1 2 3) (4 5))",
+               "(define-syntax zip (syntax-rules () ((zip (a ...) (b ...)) '((a b) ...)))) (zip (1 2) (4 5 6))",
+               "(define-syntax zip (syntax-rules () ((zip (a ...) (b ...)) '((a b) ...)))) (zip () (4 5 6)) (zip (1) ())",
+               "(define-syntax tag-all (syntax-rules () ((tag-all t x ...) '((x t) ...)))) (tag-all k 1 2 3)",
+               "(define-syntax tag-all (syntax-rules () ((tag-all t x ...) '((t x) ...)))) (tag-all k 1 2 3) (tag-all k)",
+               "(define-syntax m3 (syntax-rules () ((m3 (a ...) (b ...) (c ...)) (list (+ a b c) ...)))) (m3 (1 2 3) (1) (1 2))",
+               "(define-syntax m2 (syntax-rules () ((m2 (a b ...) ...) '((b ... a) ...)))) (m2 (1 2 3) (4) (5 6))",
                # library names whose parts are unusual as path components
                "(import (scheme ..))", "(import (..))", "(import (a ...))", "(import (|/|))", "(import (|a/b| c))", "(import (|| x))",
                "(import (scheme |..|))", "(import (a b.c))", "(import (a .b))", "(import (a 1))", "(import (a 1.5))",
@@ -237,7 +245,7 @@ def explore(ctx):
         "rule": "every string up to length %d over a 20-character alphabet%s; token soup over the vocabulary of keywords, "
                 "builtins and boundary literals with balanced and unbalanced parentheses; token-level mutations of valid "
                 "programs and of the bundled library sources; random Unicode / control characters; every builtin on tuples "
-                "of boundary values; a list of special malformed forms, among them imports of library names whose parts are unusual path components (.., ..., |/|, ||, numbers); program and library files that are not UTF-8 or "
+                "of boundary values; a list of special malformed forms, among them imports of library names whose parts are unusual path components (.., ..., |/|, ||, numbers) and macros whose ellipsis sub-template holds variables with different numbers of matches; program and library files that are not UTF-8 or "
                 "are directories. Each text is evaluated on a standard interpreter and followed by (+ 1 2) on the same "
                 "interpreter. Compared: outcome class (value / error kind / panic / abort) model vs implementation; the "
                 "property itself (no panic, no abort, sanity form still 3) is checked on the implementation's output. "
